@@ -10,6 +10,8 @@ import (
 	"os"
 	"path/filepath"
 	"sort"
+	"strconv"
+	"strings"
 	"sync"
 	"sync/atomic"
 
@@ -125,24 +127,48 @@ func Open(cfg Config) (*Manager, error) {
 }
 
 func (m *Manager) openLatestSegment() error {
-	files, err := m.cfg.FS.Glob(filepath.Join(m.cfg.Dir, "*.wal"))
+	segs, err := listSegmentFiles(m.cfg.FS, m.cfg.Dir)
 	if err != nil {
 		return err
 	}
-	var ids []int
-	for _, f := range files {
-		var id int
-		_, err := fmt.Sscanf(filepath.Base(f), "%05d.wal", &id)
-		if err == nil {
-			ids = append(ids, id)
-		}
-	}
-	sort.Ints(ids)
-	if len(ids) == 0 {
+	if len(segs) == 0 {
 		return m.switchSegmentLocked(1, true)
 	}
-	last := ids[len(ids)-1]
-	return m.switchSegmentLocked(uint32(last), false)
+	return m.switchSegmentLocked(segs[len(segs)-1].id, false)
+}
+
+// segmentFile is one WAL segment found on disk.
+type segmentFile struct {
+	id   uint32
+	path string
+}
+
+// listSegmentFiles returns the segments in dir ordered by segment id. File names are
+// matched literally, so a directory whose path contains glob metacharacters lists its
+// segments like any other, and ids of any width parse (segmentPath pads to at least
+// five digits, larger ids simply get longer names).
+func listSegmentFiles(fs vfs.FS, dir string) ([]segmentFile, error) {
+	entries, err := fs.ReadDir(dir)
+	if err != nil {
+		if errors.Is(err, os.ErrNotExist) {
+			return nil, nil
+		}
+		return nil, err
+	}
+	var segs []segmentFile
+	for _, e := range entries {
+		name := e.Name()
+		if e.IsDir() || !strings.HasSuffix(name, ".wal") {
+			continue
+		}
+		id, err := strconv.ParseUint(strings.TrimSuffix(name, ".wal"), 10, 32)
+		if err != nil {
+			continue
+		}
+		segs = append(segs, segmentFile{id: uint32(id), path: filepath.Join(dir, name)})
+	}
+	sort.Slice(segs, func(i, j int) bool { return segs[i].id < segs[j].id })
+	return segs, nil
 }
 
 func (m *Manager) rebuildRecordCounts() error {
@@ -342,29 +368,27 @@ func (m *Manager) ActiveSegment() uint32 {
 func (m *Manager) ListSegments() ([]string, error) {
 	m.mu.Lock()
 	defer m.mu.Unlock()
-	files, err := m.cfg.FS.Glob(filepath.Join(m.cfg.Dir, "*.wal"))
+	segs, err := listSegmentFiles(m.cfg.FS, m.cfg.Dir)
 	if err != nil {
 		return nil, err
 	}
-	sort.Strings(files)
+	files := make([]string, 0, len(segs))
+	for _, seg := range segs {
+		files = append(files, seg.path)
+	}
 	return files, nil
 }
 
 // Replay traverses all WAL segments and feeds entries to callback.
 func (m *Manager) Replay(fn func(info EntryInfo, payload []byte) error) error {
 	m.mu.Lock()
-	files, err := m.cfg.FS.Glob(filepath.Join(m.cfg.Dir, "*.wal"))
+	segs, err := listSegmentFiles(m.cfg.FS, m.cfg.Dir)
 	m.mu.Unlock()
 	if err != nil {
 		return err
 	}
-	sort.Strings(files)
-	for _, path := range files {
-		var id int
-		if _, err := fmt.Sscanf(filepath.Base(path), "%05d.wal", &id); err != nil {
-			continue
-		}
-		if err := m.replayFile(uint32(id), path, fn); err != nil {
+	for _, seg := range segs {
+		if err := m.replayFile(seg.id, seg.path, fn); err != nil {
 			return err
 		}
 	}
@@ -470,12 +494,12 @@ func VerifyDir(dir string, fs vfs.FS) error {
 		return fmt.Errorf("wal: directory required")
 	}
 	fs = vfs.Ensure(fs)
-	files, err := fs.Glob(filepath.Join(dir, "*.wal"))
+	segs, err := listSegmentFiles(fs, dir)
 	if err != nil {
 		return err
 	}
-	sort.Strings(files)
-	for _, path := range files {
+	for _, seg := range segs {
+		path := seg.path
 		if err := verifySegment(fs, path); err != nil {
 			return err
 		}
